@@ -13,6 +13,7 @@ import (
 	"strings"
 
 	"github.com/mgtv-tech/redis-GunYu/config"
+	"github.com/mgtv-tech/redis-GunYu/pkg/digest"
 	"github.com/mgtv-tech/redis-GunYu/pkg/redis/checkpoint"
 	"github.com/mgtv-tech/redis-GunYu/pkg/redis/client"
 	usync "github.com/mgtv-tech/redis-GunYu/pkg/sync"
@@ -212,4 +213,145 @@ func VerifC13Echo() {
 	verifObserve("echo", int64(len(echo)))
 	verifAssert(len(echo) == 0, "C13.echo.own-write-sent-back")
 	verifReach("echo.done")
+}
+
+// ---------------------------------------------------------------------------
+// C18: cluster-mode units are single-slot or refused.
+
+// verifRefSlot: HASH_SLOT per the cluster specification (DESIGN.md D1); the tag
+// selection is the reference transcription, the checksum is the repository's
+// CRC16 whose equality with CRC-16/XMODEM is decided in C11.
+func verifRefSlot(key string) uint16 {
+	s := -1
+	for i := 0; i < len(key); i++ {
+		if key[i] == '{' {
+			s = i
+			break
+		}
+	}
+	tag := key
+	if s >= 0 {
+		e := -1
+		for i := s + 1; i < len(key); i++ {
+			if key[i] == '}' {
+				e = i
+				break
+			}
+		}
+		if e >= 0 && e != s+1 {
+			tag = key[s+1 : e]
+		}
+	}
+	return digest.Crc16(tag) & 0x3fff
+}
+
+// VerifC18Builder: with a cluster target, a unit is built exactly when all keys
+// of all its commands share one reference slot, and then carries that slot.
+func VerifC18Builder() {
+	// key layouts (the brace arrangement is chosen, the other bytes are symbolic ASCII non-brace
+	// bytes; arbitrary brace/UTF-8 arrangements inside KeyToSlot itself are decided in C11)
+	sym := func() byte {
+		b := verifU8("kb")
+		verifAssume(verifAnd(b < 0x80, verifAnd(b != '{', b != '}')))
+		return b
+	}
+	klen := verifParam("KLEN", 3)
+	key := func() []byte {
+		switch verifChoose("layout", klen) {
+		case 0:
+			return []byte{sym(), sym()}
+		case 1:
+			return []byte{sym(), '{', sym(), '}', sym()}
+		case 2:
+			return []byte{'{', '}', sym()}
+		case 3:
+			return []byte{'{', sym(), '}', '{', sym(), '}'}
+		default:
+			return []byte{sym(), '{', sym(), sym()}
+		}
+	}
+	n := verifRange("ncmds", 1, 2)
+	var cmds []bisyncAofCommand
+	var keys [][]byte
+	for i := 0; i < n; i++ {
+		switch verifChoose("tmpl", 3) {
+		case 0:
+			k := key()
+			cmds = append(cmds, bisyncAofCommand{Cmd: "set", Args: [][]byte{k, []byte("v")}})
+			keys = append(keys, k)
+		case 1:
+			k1, k2 := key(), key()
+			cmds = append(cmds, bisyncAofCommand{Cmd: "rename", Args: [][]byte{k1, k2}})
+			keys = append(keys, k1, k2)
+		default:
+			k1, k2 := key(), key()
+			cmds = append(cmds, bisyncAofCommand{Cmd: "del", Args: [][]byte{k1, k2}})
+			keys = append(keys, k1, k2)
+		}
+	}
+	s0 := verifRefSlot(string(keys[0]))
+	same := true
+	for _, k := range keys[1:] {
+		same = verifAnd(same, verifRefSlot(string(k)) == s0)
+	}
+	unit, err := buildBisyncReplayUnitWithMode(1, 0, 10, n > 1, nil, cmds, bisyncSlotMode{})
+	verifObserve("built", verifB2I(err == nil))
+	verifCover(verifAnd(same, len(keys) > 1), "c18.multi-key-same-slot")
+	verifCover(!same, "c18.cross-slot")
+	verifAssert(verifImplies(same, err == nil), "C18.same-slot-unit-refused")
+	verifAssert(verifImplies(!same, err != nil), "C18.cross-slot-unit-built")
+	if err == nil {
+		verifAssert(unit.Slot == s0, "C18.unit-slot-differs-from-key-slot")
+	}
+}
+
+// VerifC18Unresolvable: commands whose keys cannot be determined stop the replay
+// before anything is built or sent.
+func VerifC18Unresolvable() {
+	var cmd bisyncAofCommand
+	switch verifChoose("kind", 3) {
+	case 0:
+		cmd = bisyncAofCommand{Cmd: "frobnicate", Args: [][]byte{verifBytes("a", 2)}}
+	case 1:
+		cmd = bisyncAofCommand{Cmd: "eval", Args: [][]byte{[]byte("return 1"), []byte("0")}}
+	default:
+		cmd = bisyncAofCommand{Cmd: "sort", Args: [][]byte{verifBytes("a", 2), []byte("by"), []byte("w_*")}}
+	}
+	unit, err := buildBisyncReplayUnitWithMode(1, 0, 10, false, nil, []bisyncAofCommand{cmd}, bisyncSlotMode{})
+	verifAssert(err != nil && unit == nil, "C18.unresolvable-command-replayed")
+}
+
+// VerifC18ControlKeys: the marker, the recovery record and the index key that
+// the dispatched transaction carries hash to the unit's slot (real slot-tag table).
+func VerifC18ControlKeys() {
+	verifClockNs = 1700000000000000000
+	// one path walks all cases: the real slot-tag table (16384 tags found by hashing ~10^5
+	// candidates) is built once per process/path
+	for _, bkey := range []string{"a", "user:{x}:1", "{}{b}", "k{a}{b}"} {
+		for _, mode := range []config.ReplayMode{config.ReplayModeSync, config.ReplayModeParallel} {
+			f := verifNewFake()
+			ro := verifBisyncLink(f, "redis-gunyu-checkpoint-bisync:aa01", mode)
+			cmds := []bisyncAofCommand{{Cmd: "set", Args: [][]byte{[]byte(bkey), []byte("v")}}}
+			unit, err := buildBisyncReplayUnitWithMode(1, 0, 10, false, nil, cmds, bisyncSlotMode{})
+			verifAssert(err == nil, "C18.control.unit-build")
+			if err != nil {
+				return
+			}
+			verifAssert(unit.Slot == verifRefSlot(bkey), "C18.unit-slot-differs-from-key-slot")
+			_, _, err = ro.execBisyncUnit(f, "rid1", unit, mode == config.ReplayModeSync)
+			verifAssert(err == nil, "C18.control.commit-error")
+			nkeys := 0
+			for _, r := range f.log {
+				if r.txn == 0 || r.cmd == "multi" || r.cmd == "exec" {
+					continue
+				}
+				k := verifArgStr(r.args[0])
+				nkeys++
+				verifAssert(verifRefSlot(k) == unit.Slot, "C18.transaction-key-in-other-slot")
+			}
+			verifObserve("nkeys", int64(nkeys))
+			verifAssert(nkeys >= 3, "C18.control.transaction-shape")
+		}
+	}
+	verifReach("c18.control")
 }
